@@ -220,7 +220,10 @@ def check_ast(segs, sep, style, res, source="grid"):
         return
     # (4) append then pop restores
     try:
-        for extra in ("zz", "[3]", "[&x]", "[a=b]", "*", "q\\.r\\/s"):
+        for extra in ("zz", "[3]", "[&x]", "[a=b]", "*", "q\\.r\\/s",
+                      # spellings that differ from their canonical rendering
+                      "'dotted.child.key'", '"q r"', '[name="User One"]',
+                      "[!name=admin]", "'a*b'"):
             q = YAMLPath(text)
             before = str(q)
             q.append(extra)
